@@ -30,9 +30,9 @@ V09(c) == IF c.status # "ok" THEN "sort_failed_" \o c.status
           ELSE IF \E k \in 1..Len(c.out) : c.out[k].pos = 0 THEN "record_altered_or_foreign"
           ELSE IF ToSet(PosSeq(c)) # 1..Len(c.file) THEN "record_duplicated_or_dropped"
           ELSE IF \E k \in 1..Len(c.out) : Len(c.out[k].extra) # 3 THEN "not_exactly_three_fields_appended"
-          ELSE IF \E k \in 1..Len(c.out) : c.out[k].extra[1] # <<"bo", "i", ToString(KeyBO(c.file[c.out[k].pos]))>> THEN "wrong_bo_field"
-          ELSE IF \E k \in 1..Len(c.out) : c.out[k].extra[2] # <<"sn", "Z", Sn(c.file[c.out[k].pos])>> THEN "wrong_sn_field"
-          ELSE IF \E k \in 1..Len(c.out) : c.out[k].extra[3] # <<"iv", "i", ToString(Iv(c.file[c.out[k].pos]))>> THEN "wrong_iv_field"
+          ELSE IF \E k \in 1..Len(c.out) : <<"bo", "i", ToString(KeyBO(c.file[c.out[k].pos]))>> \notin ToSet(c.out[k].extra) THEN "wrong_bo_field"
+          ELSE IF \E k \in 1..Len(c.out) : <<"sn", "Z", Sn(c.file[c.out[k].pos])>> \notin ToSet(c.out[k].extra) THEN "wrong_sn_field"
+          ELSE IF \E k \in 1..Len(c.out) : <<"iv", "i", ToString(Iv(c.file[c.out[k].pos]))>> \notin ToSet(c.out[k].extra) THEN "wrong_iv_field"
           ELSE "ok"
 
 V10(c) == IF c.status # "ok" THEN "sort_failed_" \o c.status
